@@ -99,4 +99,125 @@ CLAIMS = {
         "note": PARTIAL + TRUST + " Declared *lifetime* parameter positions are not armed (convention ambiguous, DESIGN.md C29).",
         "technique": "symbolic rendering of variance expressions per match arm (THIR) compared with a spec table",
     },
+    "C01": {
+        "text": "Four contracts every sound implementation must keep are decided on every path: Solution::Unique is constructed only behind "
+                "`no more answers && !ambiguous` (SLG) / `complete && !cannot_prove` (recursive) and nowhere else; ambiguity is monotone at every "
+                "site where an ambiguous bit is read (merge_answer_into_strand edges, select_subgoal, simplify/push_goal, pursue/root answer, "
+                "fulfill, truncation); negative literals are solved only through invert and fail only on a unique answer; the impl clause uses "
+                "trait_ref and all where clauses for positive impls only. Soundness/completeness of resolution is not decided.",
+        "note": PARTIAL + TRUST,
+        "technique": "MIR edge-guard reachability + field-write must-pass-through + who-may-construct + THIR clause-shape checks",
+    },
+    "C03": {
+        "text": "The answer store can never hold two equal entries (who-may-write Table.answers; push only behind a vacant hash entry keyed by the "
+                "whole canonical answer), next_answer advances exactly once, and the `more` flag is the negated look-ahead taken after the answer. "
+                "Truth and completeness of enumeration are not decided.",
+        "note": PARTIAL + TRUST,
+        "technique": "who-may-write field analysis + THIR statement-order / match-shape checks + MIR dominance",
+    },
+    "C04": {
+        "text": "The two engines are checked as siblings: same three clause sources each behind the same could_match filter, floundering mapped to "
+                "`cannot decide` in both, identical action class for every GoalData variant (with one reasoned exception), goal passed through "
+                "unchanged. Agreement of answers is not decided.",
+        "note": PARTIAL + TRUST,
+        "technique": "sibling cross-check of two implementations (call-set and match-table comparison over THIR)",
+    },
+    "C05": {
+        "text": "IsCoinductive and constituent_types tables equal a spec over all variants; auto-trait clauses only behind !impl_provided_for, which is "
+                "false for all 506 cross-constructor pairs; coinductive start value, mixed-cycle error value, all-coinductive cycle test and the "
+                "delayed-subgoal guard on reported answers are edge-guarded. Greatest-fixed-point correctness is not decided.",
+        "note": PARTIAL + TRUST,
+        "technique": "exhaustive match tables vs spec + MIR edge guards",
+    },
+    "C06": {
+        "text": "Environment is part of every cache/table key with derived Eq/Hash; add_clauses is non-destructive and its result flows only into the "
+                "Implies sub-goal in both engines; elaboration covers FromEnv(Trait) incl. all associated types and FromEnv(Ty); the env closure is "
+                "a worklist fixed point; every hypothesis is lowered to a FromEnv clause. Exactness of the closure is not decided.",
+        "note": PARTIAL + TRUST,
+        "technique": "type/impl tables + THIR dataflow of the extended environment + MIR loop-exit guard",
+    },
+    "C07": {
+        "text": "Normalize-From-Impl uses the impl's value under both where-clause sets and skips negative impls; the placeholder fallback is the only "
+                "Low-priority clause; with_priorities is mirrored and overrides only when inputs agree; relate_alias_ty always emits the AliasEq goal. "
+                "Uniqueness of normalization is not decided.",
+        "note": PARTIAL + TRUST,
+        "technique": "clause-shape (field coverage) checks over THIR + pattern symmetry + MIR must-pass-through",
+    },
+    "C09": {
+        "text": "The guards the termination argument rests on are on every path: size checks before tabling / answering / pushing obligations, "
+                "overflow check before stack push, the fixed-point loop's two exits and rollback, reached_fixed_point's is_ambig disjunct, and a "
+                "return on every absorbing AnswerResult in solve_multiple. Termination itself and engine-wide panic freedom are not decided.",
+        "note": PARTIAL + TRUST,
+        "technique": "MIR edge-guard must-pass-through + loop-exit analysis + match-arm exit table",
+    },
+    "C10": {
+        "text": "Persistent state is written only through audited paths: Cache::insert <- move_to_cache <- solve_goal, only at SCC heads after the "
+                "goal left the stack, same node set with cache on/off; tables published only after build_table; keys are the full goal-in-environment "
+                "with derived Eq/Hash. Equality of answers across histories is not decided.",
+        "note": PARTIAL + TRUST,
+        "technique": "who-may-call over the workspace call graph + MIR edge guards + impl tables",
+    },
+    "C11": {
+        "text": "Taint rule: the value produced on the `!should_continue()` edge must not reach persistent solver state unguarded. Holds for SLG "
+                "(returns before touching tables; the search never sees the callback). Violated by the recursive solver (known finding: "
+                "interrupt-derived Ambig promoted by move_to_cache). Interrupted make_solution paths only build Ambig(Unknown|Suggested).",
+        "note": TRUST + " Known finding listed in known_findings.jsonl.",
+        "technique": "interprocedural source-to-sink flow over MIR/THIR with control-dependence guard check",
+    },
+    "C12": {
+        "text": "Effect x ownership: at every call in SolveState that may reach a database callback (call-graph fixed point), no strand taken out of "
+                "shared state is owned only by the frame (MIR cleanup-path drops with provenance); the drop guard re-enqueues and unwinds; the "
+                "recursive solve_goal has no unwind pairing for its stack push. Five known findings (F6, F7).",
+        "note": TRUST + " dyn dispatch over-approximated; panics inside std are not modelled.",
+        "technique": "effect fixed point over the call graph x MIR unwind-path drop analysis (ownership provenance)",
+    },
+    "C17": {
+        "text": "All 529 anti-unifier kind pairs: different constructors generalize to a fresh variable, same constructors rebuild the same constructor "
+                "only from aggregated components; MayInvalidate answers true for different constructors and examines at least what the anti-unifier "
+                "examines (types, consts, lifetimes); Solution::combine is symmetric and only downgrades.",
+        "note": PARTIAL + TRUST,
+        "technique": "exhaustive two-column pattern matrices + sibling field-usage comparison",
+    },
+    "C19": {
+        "text": "Every panic-capable site reachable from specialization_priorities in the coherence module is audited or structurally justified; all "
+                "unordered impl pairs are examined, only negative/negative skipped, non-strict overlaps are errors; both error kinds propagate. "
+                "Semantic consistency of accepted priorities is not decided.",
+        "note": PARTIAL + TRUST,
+        "technique": "panic-site inventory over MIR in a call-graph region + match tables",
+    },
+    "C21": {
+        "text": "checked_program verifies every ADT, opaque type and impl after coherence, propagating all errors; each verify_* answers Ok only on "
+                "has_unique_solution of a closed goal with a fresh solver; the impl WF environment and header goal have both operands; the input "
+                "type collector pushes and descends into every rigid kind. Adequacy of the WF goals is not decided.",
+        "note": PARTIAL + TRUST,
+        "technique": "MIR edge guards + THIR loop/`?` shape + exhaustive match table",
+    },
+    "C24": {
+        "text": "Panic inventory over the whole parse + lower region (grammar actions read from the .lalrpop file and cross-checked with the compiled "
+                "actions; lowering functions reachable from the entry points): every panic-capable site is audited with the reason its precondition "
+                "holds; any new or unaudited site fails. Found and fixed four crashes.",
+        "note": TRUST + " Audit reasons in rules/props/c24.py are trusted; lalrpop state machine internals are trusted; stack exhaustion is out of scope.",
+        "technique": "panic-site inventory over MIR (call-graph region) + grammar-action scan",
+    },
+    "C25": {
+        "text": "Every arm of the three hand-written super-folds and every one of the 45 derived TypeFoldable impls rebuilds the same variant from each "
+                "field folded once with the unchanged binder depth; shifted_in is applied by exactly Binders/Canonical/FnPointer; DebruijnIndex "
+                "arithmetic and the Subst/Shifter/DownShifter re-shifting have the required shape. The algebraic laws on values are not decided.",
+        "note": PARTIAL + TRUST,
+        "technique": "field-coverage analysis of match arms and derive expansions (THIR) + who-shifts table",
+    },
+    "C27": {
+        "text": "Typestate/ordering skeleton of the unsafe in-place map: layout guard on every raw step; read -> progress -> map -> write(success only) "
+                "in the loop with one index; Drop's two ranges and the final free; forget/ManuallyDrop pairing; MaybeUninit box before map; private, "
+                "two audited callers. Holds for all lengths and failure positions.",
+        "note": TRUST + " ptr::read/write, Box/Vec::from_raw(_parts), ManuallyDrop, mem::forget contracts are trusted.",
+        "technique": "MIR dominance / edge-guard typestate + THIR range and argument checks + who-may-call",
+    },
+    "C28": {
+        "text": "The substitution of every strand/Fulfill comes from from_canonical of the query (one variable per binder, kind-preserving) or from a "
+                "tabled answer of the same table; returned answers pair binders and value from one canonicalize call / one answer; map_from_canonical "
+                "covers binders and all placeholder kinds.",
+        "note": PARTIAL + TRUST,
+        "technique": "provenance (who-constructs + parameter flow) over THIR + match table + sibling-completeness",
+    },
 }
